@@ -8,7 +8,9 @@
    Theorems here depend on the standard axioms of Coq's Reals library (and the FloatAxioms that specify the primitives). *)
 From Coq Require Import ZArith Reals Floats SpecFloat Lia Lra Psatz Bool.
 From Flocq Require Import Core.Core IEEE754.BinarySingleNaN IEEE754.PrimFloat.
-From Clip Require Import base.FloatModel model.Scale proofs.ScaleProofs.
+From Clip Require Import base.FloatModel.
+From Clip Require Import model.Scale.
+From Clip Require Import proofs.ScaleProofs.
 Local Open Scope Z_scope.
 
 Local Instance Hprec64 : FLX.Prec_gt_0 prec := eq_refl _.
@@ -308,14 +310,6 @@ Proof.
   cbn [cond_Zopp]. unfold F2R; cbn [Fnum Fexp]. change (bpow radix2 9) with (IZR (2 ^ 9)). rewrite <- mult_IZR. reflexivity.
 Qed.
 
-Lemma leb_finite_r a y : bfin (Prim2B a) = true -> fleb a y = true -> fleb y a = true -> bfin (Prim2B y) = true.
-Proof.
-  unfold fleb. rewrite !leb_equiv. unfold Bleb.
-  destruct (Prim2B a) as [sa|sa| |sa ma ea Ha]; intros Hfa; try discriminate;
-    destruct (Prim2B y) as [sy|sy| |sy my ey Hy]; cbn [B2SF]; try reflexivity;
-    destruct sa; try destruct sy; cbn; intros; discriminate.
-Qed.
-
 Theorem range_guard_coord s x :
   fleb min_coord (x * s) = true -> fleb (x * s) max_coord = true ->
   exists z, scale_coord s x = Some z /\ - 2 ^ 61 <= z <= 2 ^ 61.
@@ -331,7 +325,6 @@ Proof.
     - revert Hhi. cbn. discriminate. }
   unfold fleb in *. rewrite leb_equiv in Hlo, Hhi.
   rewrite Bleb_correct in Hlo, Hhi by assumption.
-  apply Rle_bool_true_iff in Hlo || (apply (Rle_bool_true_elim _ _) in Hlo) || idtac.
   destruct (finite_decode _ Fy) as [s' [m' [e' Hd]]].
   exists (rnd_A (R_of y)).
   assert (Hb : - 2 ^ 61 <= rnd_A (R_of y) <= 2 ^ 61).
@@ -343,3 +336,34 @@ Proof.
   replace (in_i64 (rnd_A (R_of y))) with true; [reflexivity|].
   symmetry. unfold in_i64. apply andb_true_iff. split; [apply Z.leb_le|apply Z.ltb_lt]; lia.
 Qed.
+
+(* ---------- ClipperD: both directions are exact ---------- *)
+Theorem clipperD_scale_exact p x s m e :
+  - 8 <= p <= 8 -> F_decode x = Some (s, m, e) ->
+  let k := log2_above_pow10 p in
+  - 1074 <= e + k ->
+  (Rabs (R_of x * bpow radix2 k) <= bpow radix2 52)%R ->
+  scaleD_spec p = pow2f k /\
+  R_of (x * scaleD_spec p) = (R_of x * bpow radix2 k)%R /\
+  scale_coord (scaleD_spec p) x = Some (rnd_A (R_of x * bpow radix2 k)).
+Proof.
+  intros Hp Hd k He Hb. pose proof (log2_above_range p Hp) as Hk. fold k in Hk.
+  split; [reflexivity|]. unfold scaleD_spec. fold k.
+  apply (scale_pow2_exact x k s m e Hd); try assumption; lia.
+Qed.
+
+Theorem clipperD_descale_exact p z :
+  - 8 <= p <= 8 -> Z.abs z < 2 ^ 53 ->
+  let k := log2_above_pow10 p in
+  bfin (Prim2B (descale_coord (inv_of (scaleD_spec p)) z)) = true /\
+  R_of (descale_coord (inv_of (scaleD_spec p)) z) = (IZR z * bpow radix2 (- k))%R.
+Proof.
+  intros Hp Hz k. pose proof (log2_above_range p Hp) as Hk. fold k in Hk.
+  rewrite (invD_exact p Hp). fold k. apply descale_pow2_exact; [exact Hz|lia].
+Qed.
+
+(* hypotheses are satisfiable: 0.00390625 * 2^7 = 0.5 rounds to 1 *)
+Example clipperD_scale_exact_sat :
+  exists x s m e, F_decode x = Some (s, m, e) /\ - 1074 <= e + log2_above_pow10 2 /\
+                  scale_coord (scaleD_spec 2) x = Some 1.
+Proof. exists 0.00390625%float. eexists. eexists. eexists. repeat split; vm_compute; try reflexivity. discriminate. Qed.
